@@ -89,6 +89,8 @@ func specHash(lport, rport uint16) int {
 //@   inline
 //@ func (*Gateway).Addr
 //@   inline
+//@ func NewGateway
+//@   inline
 
 // ---- lemmas (verified like any function; used through `lemma` clauses) ----
 
